@@ -190,6 +190,17 @@ def run(tier: str, seed: int) -> int:
         run_.extra.setdefault("all_N_lemmas_apalache", {})[_inv] = _ok
         if not _ok:
             run_.violation({"kind": "spec", "invariant": _inv, "what": "all-N lemma refuted"}, {"apalache": _tail})
+    # ---- default (float32) session: the same public calls on the same inputs in a float32 child process
+    from .. import xsession as _xs
+    import numpy as _np
+    _rng = _np.random.default_rng(seed + 77)
+    _cases = []
+    for _D, _N, _M in ((1, 16, 24), (1, 15, 8), (2, 8, 11), (2, 9, 6), (3, 6, 8), (3, 5, 4)):
+        _u = _rng.standard_normal((2,) + (_N,) * _D)
+        _cases.append(dict(id=f"resample/{_D}/{_N}/{_M}", name="map_between_resolutions", args=[_u], kw=dict(new_num_points=_M)))
+        for _j in range(3):
+            _cases.append(dict(id=f"interp/{_D}/{_N}/{_j}", name="interpolate", args=[_u, _rng.uniform(0, 2.0, _D)], kw=dict(L=2.0), cond=float(_N)))
+    _xs.compare(run_, PID, _cases, os.path.join(tlc.SCRATCH, f"c15xs.{os.getpid()}"))
     # the composed machine (spec/Session.tla): multi-step API sessions generated by TLC -simulate, replayed call by call; this check
     # reports the mismatches of the operations it owns (resample)
     if True:
